@@ -209,6 +209,33 @@ theorem minUnusedFd_free (l : List (Nat × FdEntry)) (min : Nat) :
     exact ⟨by simpa using h1, by omega⟩
 
 
+/-- `min_unused_fd` returns the LOWEST unused descriptor at or above `min`: every descriptor in between is open -/
+theorem minUnusedFd_least (l : List (Nat × FdEntry)) (min m : Nat) (h1 : min ≤ m) (h2 : m < minUnusedFd l min) :
+    (fdGet l m).isSome = true := by
+  have hfree := minUnusedFd_free l min
+  unfold minUnusedFd at h2 hfree
+  rw [List.find?_map] at h2 hfree
+  cases hf : (List.range (l.length + 1)).find? ((fun n => (fdGet l n).isNone) ∘ (· + min)) with
+  | none =>
+    -- impossible: the pigeonhole lemma found a free candidate
+    rw [hf] at hfree h2
+    simp only [Option.map_none, Option.getD_none] at hfree h2
+    rw [List.find?_eq_none] at hf
+    by_cases hm : m - min < l.length + 1
+    · have := hf (m - min) (List.mem_range.mpr hm)
+      have e : m - min + min = m := by omega
+      simp only [Function.comp, e] at this
+      cases hg : fdGet l m <;> simp_all
+    · omega
+  | some i =>
+    rw [hf] at h2
+    simp only [Option.map_some, Option.getD_some] at h2
+    rw [List.find?_range_eq_some] at hf
+    have := hf.2.2 (m - min) (by omega)
+    have e : m - min + min = m := by omega
+    simp only [Function.comp, e] at this
+    cases hg : fdGet l m <;> simp_all
+
 /-! ### the answers of the descriptor calls, case by case -/
 
 theorem open_ok (q : Proc) (l : String) (ha : fdAllowed q (minUnusedFd q.fds 0) = true) :
